@@ -80,9 +80,19 @@ def gen_plan(rng):
             kw["wait_to_parse"] = True
         if rng.random() < 0.08:
             kw["layout"] = rng.choice(opgen.LAYOUTS)
+        r_txt = rng.random()
+        if r_txt < 0.15:
+            text_ = rng.choice(sorted(corpus.WITNESS.values()))
+        elif r_txt < 0.19:
+            a_ = rng.randint(1, 14)
+            text_ = (f"T{rng.randint(1, 160)}N-R{rng.randint(1, 105)}W "
+                     f"Sections {a_} - {a_ + rng.randint(15, 21)}: "
+                     + rng.choice(("N/2NE/4, NE/4", "Lots 1, 1",
+                                   "Lots 3 - 1, W/2", "Lot 1(38.29), Lot 1(39.00)")))
+        else:
+            text_ = corpus.gen_desc(rng)
         ops.append({"op": "create", "cls": "PLSSDesc",
-                    "text": (rng.choice(sorted(corpus.WITNESS.values()))
-                             if rng.random() < 0.15 else corpus.gen_desc(rng)),
+                    "text": text_,
                     "config": opgen.gen_config_text(rng, hi=3),
                     "kw": kw})
         pkw_names = opgen.PLSS_PARSE_KW
@@ -108,8 +118,12 @@ def gen_plan(rng):
         ops.append(_gen_op(rng, cls, rng.choice(kinds), pkw_names))
     if mode == "repeat":
         # force a back-to-back repeat of a committed call
-        if cls == "PLSSDesc" and rng.random() < 0.6:
+        r_rep = rng.random()
+        if cls == "PLSSDesc" and r_rep < 0.5:
             rep = {"op": "parse_tracts", "config": None, "kw": {}}
+        elif cls == "PLSSDesc" and r_rep < 0.7:
+            rep = {"op": "tract_parse", "i": rng.randrange(6), "commit": True,
+                   "kw": {}}
         else:
             rep = {"op": "parse", "commit": True, "kw": {}}
         pos = rng.randint(1, len(ops))
